@@ -5,6 +5,9 @@ VERIF = os.path.dirname(os.path.dirname(os.path.abspath(__file__)))
 props = {json.loads(l)["id"]: json.loads(l) for l in open(os.path.join(VERIF, "properties.jsonl"))}
 
 CHECKS = {
+ "C13": dict(cat="exploration", technique="property-based testing with metamorphic / relational oracles over the query API (pagination, order reversal, filter-as-predicate, grouping, capacity) plus a differential against the generating chain",
+   text="For generated index contents and generated queries the answers must satisfy: paging yields every entry once in key order independent of the limit, desc = reverse(asc), a filtered answer = the unfiltered one restricted by a predicate written from the documentation, grouped = ungrouped grouped by transaction, capacity = sum of the cells + stored tip, unfiltered = the chain's live cells of all registered scripts sharing the prefix.",
+   note="S2/S3 scoping; oracle predicates are re-derived from the README / ckb-indexer documentation, not from service.rs.", ref="6/C13"),
  "C04": dict(cat="exploration", technique="stateful property-based testing of fork switches (generated fork depth / moment / restart / reconnect) against the reference index of the new branch; documented long-fork abort checked by catch_unwind",
    text="Branch A is synced fully or mid-way, then all honest peers move to a heavier branch B forking below / at / above last_n; short forks must end in the goal state with the reference index of B and no record of an abandoned block, long forks must leave the store untouched until the documented panic. Exploration over fork depth x sync moment x schedule.",
    note="Generator respects depth < check point interval (production relation interval >> last_n). Known findings D21, D22a/b, D23 tolerated by signature.", ref="6/C04"),
